@@ -256,6 +256,33 @@ def wb_converter_bytes(dw_m, dw_s, aw, rng, n=4):
     return out
 
 
+def glue_flat_msg(dm, ds, x, xs, same):
+    """Model-independent: both ends of the addressing glue name the same flat byte (word address * nb = aligned byte
+    address) and the other signals pass unchanged; returns a message or None."""
+    nb = dm[1] // 8
+    flat_m = (x // nb * nb) if dm[3] else x * nb
+    flat_s = (xs // nb * nb) if ds[3] else xs * nb
+    mask = (1 << min(dm[2], ds[2])) - 1
+    if (flat_m & mask) != (flat_s & mask) or not same:
+        return ("addressing glue carries address 0x%x as 0x%x (flat byte 0x%x vs 0x%x) or alters cyc/stb/we/sel/dat_w"
+                % (x, xs, flat_m, flat_s))
+    return None
+
+
+def replay_combo(combo, seed=0):
+    """Re-run the model-independent oracles of one combination on the current tree; returns a message or None."""
+    real = real_chain(tuple(combo))
+    msg = glue_oracle(tuple(combo), real)
+    if msg or real[0] != "ok":
+        return msg
+    if any(e[0] == KIND["addressing"] for e in real[1]):
+        for (dm, ds, x, xs, same) in addressing_glue_bytes(real, combo[7], random.Random(seed), n=8):
+            msg = glue_flat_msg(dm, ds, x, xs, same)
+            if msg:
+                return msg
+    return None
+
+
 def differential(ctx):
     """Returns the list of disagreements (empty on the unchanged tree)."""
     logging.getLogger("SoCBusHandler").setLevel(logging.CRITICAL)
@@ -324,14 +351,10 @@ def _differential(ctx):
     if glue_cases:
         lines = ["chainbyte 1 3 %d %d %d %d %d %d %d %d %d 0" % (dm + ds + (x,)) for (_, _, dm, ds, x, _, _) in glue_cases]
         for (name, combo, dm, ds, x, xs, same), r in zip(glue_cases, ctx.lean.call_batch(lines)):
-            # model-independent: both ends name the same flat byte (word address * nb = aligned byte address)
             nb = dm[1] // 8
-            flat_m = (x // nb * nb) if dm[3] else x * nb
-            flat_s = (xs // nb * nb) if ds[3] else xs * nb
-            mask = (1 << min(dm[2], ds[2])) - 1
-            if (flat_m & mask) != (flat_s & mask) or not same:
-                dis.append(mk_dis(name, "monitor:addressing glue carries address 0x%x as 0x%x (flat byte 0x%x vs 0x%x) "
-                                  "or alters cyc/stb/we/sel/dat_w" % (x, xs, flat_m, flat_s), combo=combo))
+            msg = glue_flat_msg(dm, ds, x, xs, same)
+            if msg:
+                dis.append(mk_dis(name, "monitor:" + msg, combo=combo))
             else:
                 s_bits = ds[2] - (0 if ds[3] else log2(nb))
                 if int(r.split()[0]) % (1 << s_bits) != xs:
